@@ -964,7 +964,7 @@ func c11Mutate(r *Rng, c *c11Cfg, mut string) bool {
 
 // extra types to be appended later: objects (possibly implementing existing or
 // new interfaces), interfaces, unions, inputs, enums that refer to old and new types.
-func c11GenExtras(r *Rng, c *c11Cfg) []int {
+func c11GenExtras(r *Rng, c *c11Cfg) ([]int, []string) {
 	g := &c11G{r: r, cfg: c}
 	for _, d := range c.Defs {
 		if d.ID >= g.next {
@@ -986,9 +986,102 @@ func c11GenExtras(r *Rng, c *c11Cfg) []int {
 		}
 	}
 	var extras []int
+	var tags []string
+	// an implementer of interfaces (of the base schema, mostly) built from the interfaces' fields
+	implementer := func(prefix string, ifaces []int) *c11Def {
+		d := g.add(c11Object, prefix)
+		d.IsTypeOf = true
+		d.Thunk = r.Bool()
+		d.Members = ifaces
+		if len(ifaces) > 0 {
+			d.Slot = c11SlotList
+			if r.Chance(30) {
+				d.Slot = c11SlotThunk
+			}
+		}
+		g.objects = append(g.objects, d.ID)
+		for _, i := range ifaces {
+			for _, f := range c.def(i).Fields {
+				nf := c11Field{Name: f.Name, T: g.subRef(f.T)}
+				nf.Args = append(nf.Args, f.Args...)
+				d.Fields = append(d.Fields, nf)
+			}
+		}
+		d.Fields = append(d.Fields, c11Field{Name: "o0", T: g.outRef(), Args: g.args("b", 1)})
+		return d
+	}
+	// a type that is NOT appended itself but is reached through an appended type of another
+	// kind (union member, field of an interface or object, argument of an input type ...): an
+	// object implementing interfaces that are already in the schema, conforming or not
+	if len(g.ifaces) > 0 && r.Chance(75) {
+		var ifs []int
+		for _, i := range g.ifaces {
+			if r.Chance(60) {
+				ifs = append(ifs, i)
+			}
+		}
+		if len(ifs) == 0 {
+			ifs = []int{g.pick(g.ifaces)}
+		}
+		h := implementer("HO", ifs)
+		tags = append(tags, "hidden-implementer")
+		if r.Chance(35) && len(h.Fields) > 1 {
+			// break the implementation: drop an interface field or give it an unrelated type
+			if r.Bool() {
+				h.Fields = h.Fields[1:]
+			} else if c11RefIDs(h.Fields[0].T, nil)[0] == c11IDInt {
+				h.Fields[0].T = c11Named(c11IDString)
+			} else {
+				h.Fields[0].T = c11Named(c11IDInt)
+			}
+			tags = append(tags, "hidden-nonconforming")
+		}
+		ref := c11Named(h.ID)
+		if r.Bool() {
+			ref = c11ListOf(ref)
+		}
+		switch r.Intn(4) {
+		case 0, 1:
+			d := g.add(c11Union, "XU")
+			d.ResolveType = true
+			d.Slot = c11SlotList
+			if r.Chance(30) {
+				d.Slot = c11SlotThunk
+			}
+			d.Members = []int{h.ID}
+			if r.Bool() {
+				d.Members = append(d.Members, g.pick(g.objects[:len(g.objects)-1]))
+				if d.Members[1] == h.ID {
+					d.Members = d.Members[:1]
+				}
+			}
+			g.unions = append(g.unions, d.ID)
+			extras = append(extras, d.ID)
+			tags = append(tags, "carrier-union")
+		case 2:
+			d := g.add(c11Interface, "XI")
+			d.ResolveType = true
+			d.Fields = []c11Field{{Name: fmt.Sprintf("i%df0", d.ID), T: ref}}
+			g.ifaces = append(g.ifaces, d.ID)
+			extras = append(extras, d.ID)
+			tags = append(tags, "carrier-interface")
+		default:
+			d := g.add(c11Object, "XO")
+			d.IsTypeOf = true
+			d.Fields = []c11Field{{Name: "o0", T: ref}}
+			g.objects = append(g.objects, d.ID)
+			extras = append(extras, d.ID)
+			tags = append(tags, "carrier-object")
+		}
+	}
 	n := 1 + r.Intn(4)
 	for k := 0; k < n; k++ {
-		switch r.Intn(6) {
+		switch r.Intn(7) {
+		case 6:
+			d := g.add(c11Scalar, "XS")
+			d.Serialize = true
+			g.scalars = append(g.scalars, d.ID)
+			extras = append(extras, d.ID)
 		case 0:
 			d := g.add(c11Interface, "XI")
 			d.ResolveType = true
@@ -1046,7 +1139,7 @@ func c11GenExtras(r *Rng, c *c11Cfg) []int {
 	if len(extras) > 4 {
 		extras = extras[:4]
 	}
-	return extras
+	return extras, tags
 }
 
 func c11Perms(xs []int) [][]int {
@@ -1176,15 +1269,15 @@ func genC11(tier string, seed uint64, n int, e *Emitter) {
 		c11EmitBuild(e, c, tags, nt)
 	}
 	// (3) AppendType histories: all orders of up to 4 appended types
-	m := n / 40
-	if m < 4 {
-		m = 4
+	m := n / 25
+	if m < 6 {
+		m = 6
 	}
 	for i := 0; i < m; i++ {
 		r := NewRng(seed^0xA99E7D, uint64(i))
 		c := c11GenValid(r)
-		extras := c11GenExtras(r, c)
-		tags := []string{fmt.Sprintf("extras%d", len(extras))}
+		extras, xtags := c11GenExtras(r, c)
+		tags := append([]string{fmt.Sprintf("extras%d", len(extras))}, xtags...)
 		if r.Chance(25) {
 			mut := c11Mutations[r.Intn(len(c11Mutations))]
 			if c11Mutate(r, c, mut) {
